@@ -368,6 +368,15 @@ func TestVerif_C11_Attest(t *testing.T) {
 	}, Run: func(c attestCase) (*vh.Violation, vh.Outcome) {
 		o := vh.Outcome{NonTrivial: c.Decimals == 0 || c.Decimals >= 255 || c.CL >= 255 || len(c.Symbol) == 32 || len(c.Name) == 0}
 		tokenId := vh.Expand(c.TokenSeed, 32)
+		switch c.TokenSeed % 8 { // special ids: the native token (all zero), its neighbours, all ones
+		case 0:
+			tokenId = make([]byte, 32)
+		case 1:
+			tokenId = make([]byte, 32)
+			tokenId[31] = 1
+		case 2:
+			tokenId = bytes.Repeat([]byte{0xff}, 32)
+		}
 		bridgeId := vh.Expand(7777, 32)
 		var nonce [4]byte
 		binary.BigEndian.PutUint32(nonce[:], c.Nonce)
